@@ -50,8 +50,10 @@ Open == {Lx("{{ 1", <<"LBRACES", "INT">>), Lx("{{", <<"LBRACES">>), Lx("{{ {a: 1
          Lx("{{ \"abc", <<"LBRACES", "ILLEGAL">>), Lx("{{-- c", <<"ILLEGAL">>), Lx("{{ ~ }}", <<"LBRACES", "ILLEGAL", "RBRACES">>)}
 InCodeAfter(l) == l.ts[Len(l.ts)] # "ILLEGAL" /\ l.src # "{{ ~ }}"
 
-RECURSIVE SeqsUpTo(_, _)
-SeqsUpTo(A, n) == IF n = 0 THEN {<<>>} ELSE LET R == SeqsUpTo(A, n - 1) IN R \cup {Append(q, c) : q \in R, c \in A}
+\* every sequence over A of length <= n: the functions 1..n -> A + a padding element, with the padding dropped. (A union
+\* of the sets of each length makes TLC compare every new element with every old one: 19^4 inputs never finished.)
+PadLx == [src |-> "", ts |-> <<"$pad">>]
+SeqsUpTo(A, n) == {SelectSeq(q, LAMBDA e : e # PadLx) : q \in [1..n -> A \cup {PadLx}]}
 RECURSIVE CatSrc(_)
 CatSrc(ls) == IF ls = <<>> THEN "" ELSE ls[1].src \o CatSrc(Tail(ls))
 RECURSIVE CatToks(_)
@@ -69,10 +71,32 @@ Unclosed(ts) == Count(ts, {"IF", "EACH", "FOR"}) > Count(ts, {"END"}) \/ EndsWit
 Base == IF LexSet = "small" THEN Small ELSE Closed \cup IllegalLx \cup SlotLx \cup SloppyLx
 \* every @slot of the input belongs to a component use: the input is made of SlotLx lexemes and lexemes without @slot
 Owned(q) == \A k \in 1..Len(q) : q[k] \in SlotLx \/ Count(q[k].ts, {"SLOT"}) = 0
-MCInputs == {[toks |-> CatToks(q), incode |-> FALSE, open |-> Unclosed(CatToks(q)), src |-> CatSrc(q), owned |-> Owned(q)] : q \in SeqsUpTo(Base, MaxLex)}
-       \cup {[toks |-> CatToks(q) \o o.ts, incode |-> InCodeAfter(o), open |-> TRUE, src |-> CatSrc(q) \o o.src, owned |-> FALSE] :
-               q \in SeqsUpTo(Base, MaxLex - 1), o \in Open}
+\* (one set constructor, no union: see SeqsUpTo)
+MkInput(q, last) == IF last \in Open
+                    THEN [toks |-> CatToks(q) \o last.ts, incode |-> InCodeAfter(last), open |-> TRUE, src |-> CatSrc(q) \o last.src, owned |-> FALSE]
+                    ELSE LET q2 == IF last = PadLx THEN q ELSE Append(q, last) IN
+                         [toks |-> CatToks(q2), incode |-> FALSE, open |-> Unclosed(CatToks(q2)), src |-> CatSrc(q2), owned |-> Owned(q2)]
+MCInputs == {MkInput(q, last) : q \in SeqsUpTo(Base, MaxLex - 1), last \in Base \cup Open \cup {PadLx}}
+ASSUME Base \cap Open = {}
 
-Record == [src |-> inp.src, parseErr |-> errs # <<>>, mustErr |-> inp.open \/ (\E k \in 1..Len(inp.toks) : inp.toks[k] = "ILLEGAL"), firstErr |-> IF errs = <<>> THEN "" ELSE errs[1]]
+\* ---- LexSet "exprA" / "exprB": every sequence of up to MaxLex expression tokens between "{{" and "}}", and the same
+\* sequence cut off by the end of the input (a prefix of a template: must be rejected). Tokens are written with one
+\* space between them, so each lexes on its own.
+Tk(t, s) == [t |-> t, s |-> s]
+ExprB == {Tk("IDENT", "x"), Tk("INT", "1"), Tk("ADD", "+"), Tk("SUB", "-"), Tk("QUESTION", "?"), Tk("COLON", ":"), Tk("DOT", "."), Tk("LPAREN", "("),
+          Tk("RPAREN", ")"), Tk("LBRACKET", "["), Tk("RBRACKET", "]"), Tk("INC", "++"), Tk("COMMA", ",")}
+ExprA == ExprB \cup {Tk("STR", "\"s\""), Tk("MUL", "*"), Tk("EQ", "=="), Tk("LTHAN", "<"), Tk("NOT", "!"), Tk("LBRACE", "{"), Tk("RBRACE", "}"),
+                     Tk("SEMI", ";"), Tk("ASSIGN", "="), Tk("NIL", "nil"), Tk("FLOAT", "1.5")}
+PadTk == Tk("$pad", "")
+TkSeqs(A, n) == {SelectSeq(q, LAMBDA e : e # PadTk) : q \in [1..n -> A \cup {PadTk}]}
+RECURSIVE TkSrc(_)
+TkSrc(q) == IF q = <<>> THEN "" ELSE " " \o q[1].s \o TkSrc(Tail(q))
+TkTypes(q) == [k \in 1..Len(q) |-> q[k].t]
+ExprInputs(A) == {IF closed THEN [toks |-> <<"LBRACES">> \o TkTypes(q) \o <<"RBRACES">>, incode |-> FALSE, open |-> FALSE, src |-> "{{" \o TkSrc(q) \o " }}", owned |-> TRUE]
+                            ELSE [toks |-> <<"LBRACES">> \o TkTypes(q), incode |-> TRUE, open |-> TRUE, src |-> "{{" \o TkSrc(q), owned |-> TRUE] :
+                  q \in TkSeqs(A, MaxLex), closed \in BOOLEAN}
+AllInputs == IF LexSet = "exprA" THEN ExprInputs(ExprA) ELSE IF LexSet = "exprB" THEN ExprInputs(ExprB) ELSE MCInputs
+
+Record == [src |-> inp.src, toks |-> inp.toks, parseErr |-> errs # <<>>, mustErr |-> inp.open \/ (\E k \in 1..Len(inp.toks) : inp.toks[k] = "ILLEGAL"), firstErr |-> IF errs = <<>> THEN "" ELSE errs[1]]
 Gen == (Finished /\ Emit_) => PrintT(ToJson(Record))
 =============================================================================
